@@ -89,7 +89,9 @@ def check_mark_phase(P, ctx):
             continue
         for c in ir.calls(n['expr']):
             callee = N.canon(c[1])
-            if callee == ('func', 'GC_Mark_Stack') and N.canon(c[2][0]) == gcp:
+            if callee != ('func', 'GC_Mark_Stack'):
+                callee = util.resolve_callee(g, c, n)
+            if callee == ('func', 'GC_Mark_Stack') and c[2] and N.canon(c[2][0]) == gcp:
                 stack.append(n)
     ok = ok_tls and len(roots_loop) == 1 and len(sj) == 1 and len(stack) == 1
     if ok:
